@@ -50,6 +50,7 @@ class C16(RailsProp):
         # runs in a later request with another subset.  The conversation is continued the two ways the API offers:
         # the message list (events cache of the instance) or the returned state object.
         sc["continuity"] = d.choice(["messages", "state"], "cont")
+        sc["opt_style"] = d.randint(0, 1, "optstyle")
         plan = []
         for k in range(sc["prior_turns"]):
             tk = "#c0t%d#" % (k + 5)
@@ -240,7 +241,11 @@ def _run_plan(spec, per_turn, continuity, tr):
                 new = [{"role": "user", "content": turn["text"]}]
                 if supplied is not None:
                     new.append({"role": "assistant", "content": supplied})
-                opts = {"rails": sorted(S), "log": {"activated_rails": True}} if S is not None else None
+                opts = None
+                if S is not None:
+                    # the option accepts a list of category names or a dict of flags: both spellings, alternating
+                    rails_opt = sorted(S) if (t + int(spec.get("opt_style", 0))) % 2 == 0 else {c: (c in S) for c in CATS}
+                    opts = {"rails": rails_opt, "log": {"activated_rails": True}}
                 if continuity == "state":
                     st, res = await world.generate("c0", messages=new, options=opts, state=state)
                 else:
